@@ -241,6 +241,28 @@ theorem eq_depends_on_canon_only (a a' b b' : Node) (ha : DictOK a) (ha' : DictO
     | false => rfl
     | true => rw [e2.mpr (e1.mp h')] at h; cases h
 
+/-- equal trees have the same number of nodes -/
+theorem eq_same_size (a b : Node) (ha : DictOK a) (hb : DictOK b) (h : eqImpl a b = true) : sizeN a = sizeN b := by
+  have := (eq_iff_structural a b ha hb).mp h
+  rw [← csize_canon a, ← csize_canon b, this]
+
+/-- hence `==` never identifies a tag with something below it: the structural test `c.parent != tag_stack[-1]` of
+    `_event_stream` (the stack holds the open ancestors of the previous element, `c.parent` is one of them) pops exactly
+    when the identity test would — copies of trees with repeated identical sub-structure have the right shape (the harness
+    enumerates all small ones) -/
+theorem eq_never_confuses_ancestor_and_descendant (a x : Node) (ha : DictOK a) (hx : DictOK x) (h : Below a x) :
+    eqImpl a x = false ∧ eqImpl x a = false := by
+  have hs := below_size h
+  constructor
+  · cases he : eqImpl a x with
+    | false => rfl
+    | true => have := eq_same_size a x ha hx he; omega
+  · cases he : eqImpl x a with
+    | false => rfl
+    | true => have := eq_same_size x a hx ha he; omega
+
+example : Below exP (.tag 4 dB []) := .kid (by simp)
+
 /-- **Attribute order is irrelevant**: permuting the attributes of a tag gives an equal tag -/
 theorem attr_order_irrelevant (i j : Nat) (d : TagData) (attrs' : List (PStr × AVal)) (ks : List Node)
     (hd : DictOK (.tag i d ks)) (hp : d.attrs.Perm attrs') :
